@@ -333,4 +333,27 @@ theorem initLoop_state (c : PanelCfg) (ukids0 : Array Int) (hps : 1 ≤ c.panelS
         · exact I.2 p hp
     · simp
 
+/-- the leading columns come in strictly increasing order, all inside [a.i, n): no column leads two panels -/
+theorem cursors_increasing (c : PanelCfg) (ukids0 : Array Int) (hps : 1 ≤ c.panelSize) :
+    ∀ fuel a, CurOk c.n a → (cursors c ukids0 fuel a).Pairwise (· < ·)
+      ∧ ∀ p ∈ cursors c ukids0 fuel a, a.i ≤ p ∧ p < c.n := by
+  intro fuel
+  induction fuel with
+  | zero => intro a _; simp [cursors]
+  | succ f ih =>
+    intro a h
+    unfold cursors
+    split
+    · rename_i hi
+      have S := initStep_cursor c ukids0 a hps h hi
+      have I := ih (initStep c ukids0 a) S.2.2
+      refine ⟨?_, ?_⟩
+      · rw [List.pairwise_cons]
+        exact ⟨fun p hp => by have := (I.2 p hp).1; omega, I.1⟩
+      · intro p hp
+        rcases List.mem_cons.mp hp with hp | hp
+        · subst hp; omega
+        · have := I.2 p hp; omega
+    · simp
+
 end Slu
